@@ -29,7 +29,7 @@ THEOREMS = [
     "chunking_irrelevant_sortagg", "chunking_irrelevant_semijoin", "chunking_irrelevant_hashsemijoin",
     "chunking_irrelevant_simpleagg_unsound", "chunkpath_rowcount",
     # hash = nested loop under KeysComparable; full statements refuted
-    "hash_eq_nl_inner", "hash_eq_nl_semi", "hash_eq_nl_anti", "hashjoin_inner_structural",
+    "hash_eq_nl_inner", "hash_eq_nl_semi", "hash_eq_nl_anti", "hash_eq_spec_right_outer", "hashjoin_inner_structural",
     "chunking_irrelevant_hashjoin_inner",
     "hash_eq_nl_unsound_null_key", "hash_eq_nl_unsound_int_width", "hash_anti_unsound_null_key",
     "merge_eq_nl_unsound_null_key",
@@ -39,6 +39,7 @@ THEOREMS = [
     "rowpath_eq_spec", "simpleagg_eq_hashagg_nokeys_sum_partial", "simpleagg_eq_hashagg_nokeys_sum_unsound",
     "simpleagg_eq_hashagg_nokeys_first_unsound",
     "simpleagg_is_chunkpath", "sortagg_nokeys_is_rowpath",
+    "hashagg_groupwise", "hashagg_eq_spec_partial", "sortagg_one_run", "hashagg_eq_sortagg_one_run",
 ]
 
 # witnesses of the `_unsound` theorems, replayed on the implementation by the corpus file
